@@ -153,6 +153,22 @@ def resolve_call(repo, call, fn=None, receivers="all"):
     root = d.split(".")[0]
     if fn is not None and root in _locals_of(fn):
         return out
+    # console.profuse(..): `console` is the module-level `console = getConsole()` (an instance of consoling.Console)
+    if isinstance(f, ast.Attribute) and isinstance(f.value, ast.Name):
+        vb = module.ns.get(f.value.id)
+        st = getattr(vb, "node", None) if vb is not None and vb.kind == "var" else None
+        if isinstance(st, ast.Assign) and isinstance(st.value, ast.Call) and len(st.targets) == 1 and isinstance(st.targets[0], ast.Name):
+            fb = repo.resolve_expr(vb.module or module, st.value.func)
+            if fb is not None and fb.kind == "func" and getattr(fb.target, "name", "") in INSTANCE_FACTORIES:
+                cm, cn = INSTANCE_FACTORIES[fb.target.name]
+                tm = repo.modules.get(cm)
+                k = tm.classes.get(cn) if tm is not None else None
+                if tm is not None and k is None:
+                    tm.ns
+                    k = tm.classes.get(cn)
+                look = k.lookup(f.attr) if k is not None else None
+                if look and isinstance(look[1], FuncT):
+                    return [(look[1], k, "func" if f.attr in look[0].statics else "method")]
     b = repo.resolve_expr(module, f)
     if b is None:
         return out
@@ -172,6 +188,8 @@ def resolve_call(repo, call, fn=None, receivers="all"):
 
 
 _BUILTIN_METHOD_NAMES = None
+# functions that hand out the one instance of a class: name -> (module, class)
+INSTANCE_FACTORIES = {"getConsole": ("ioflo.aid.consoling", "Console")}
 
 
 def resolve_call_loose(repo, call, fn=None):
